@@ -141,6 +141,96 @@ func C24(c *Ctx) {
 		c.Decide(endSet, r3, key(fn, "UpdateRegion[1]#range-changed"), first.Pos(), 2, "this call carries the range change", "cannot find the range change before the first UpdateRegion (anchor drift)")
 		c.Decide(verInc, r3, key(fn, "UpdateRegion[1]#Epoch.Version++"), first.Pos(), 2, "the range change is accompanied by Epoch.Version+1 on every path", "the region's key range is changed without incrementing Epoch.Version on every path (stale clients keep a valid epoch)")
 	}
+	const r3c = "K1.region-update-one-critical-section"
+	c.Rule(r3c, "regionManager.updateRegion holds regionManager.mu (write) at the state-transition check, at the manifest record (LogRegionUpdate) and at the install into metaByID, with no unlock in between on the success path: the transition is validated against the state that is current when the update is installed")
+	if fn := c.Fn("raftstore/store", "regionManager.updateRegion"); fn != nil {
+		ls := ComputeLockSets(fn)
+		lock := "raftstore/store.regionManager.mu"
+		var sites []ssa.Instruction
+		for _, ci := range Calls(fn, false, Named("raftstore/store.validRegionStateTransition", "manifest.(*Manager).LogRegionUpdate")) {
+			sites = append(sites, ci.(ssa.Instruction))
+		}
+		sites = append(sites, fieldMapUpdates(fn, "raftstore/store.regionManager", "metaByID")...)
+		all := len(sites) >= 3
+		for _, s := range sites {
+			if !ls.Holds(s, lock, false) {
+				all = false
+			}
+		}
+		// one section: no Unlock of mu between the first and the last site on paths that reach the install
+		between := false
+		if len(sites) >= 2 {
+			first, last := sites[0], sites[len(sites)-1]
+			AllInstrs(fn, false, func(in ssa.Instruction) {
+				if op := LockOpOf(in); op != nil && op.ID == lock && (op.Op == "Unlock" || op.Op == "RUnlock") && !op.Defer {
+					if Dominates(first, in) && blockReaches(in.Block(), last.Block()) && in.Block() != last.Block() {
+						between = true
+					}
+				}
+			})
+		}
+		c.Decide(all && !between, r3c, key(fn, "check+log+install@mu"), fn.Pos(), len(sites)+1, "state check, manifest record and install share one write-locked section", "updateRegion validates the state transition, logs and installs without holding regionManager.mu across all three: two concurrent updates validate against the same old state and are applied in an order no serial execution allows")
+	}
+	const r3b = "K1.split-merge-preserve-partition"
+	c.Rule(r3b, "a split hands the child exactly [split key, parent end): SplitRegion either copies the parent's EndKey into a child that has none or rejects a child EndKey different from the parent's (bytes.Equal test with a rejecting false edge) before the parent is shrunk; a merge forms the union of two ADJACENT ranges: handleMergeCommand moves the target's EndKey only behind `target.EndKey == source.StartKey` and the target's StartKey only behind `source.EndKey == target.StartKey`, and refuses otherwise")
+	if fn := c.Fn("raftstore/store", "Store.SplitRegion"); fn != nil {
+		inherits, rejects := false, false
+		for _, st := range fieldStoresIn(fn, false, "manifest.RegionMeta", "EndKey") {
+			sv, ok := st.(*ssa.Store)
+			if !ok {
+				continue
+			}
+			// child.EndKey = copy of parent.EndKey
+			if call, ok := sv.Val.(*ssa.Call); ok {
+				for _, a := range call.Call.Args {
+					if fieldNameOf(a) == "EndKey" || (func() bool { sl, ok := a.(*ssa.Slice); return ok && fieldNameOf(sl.X) == "EndKey" })() {
+						inherits = true
+					}
+				}
+			}
+		}
+		for _, eq := range Calls(fn, false, Named("bytes.Equal")) {
+			a, b := fieldNameOf(eq.Common().Args[0]), fieldNameOf(eq.Common().Args[1])
+			if a == "EndKey" && b == "EndKey" {
+				rejects = true
+			}
+		}
+		c.Decide(inherits && rejects, r3b, key(fn, "child-end=parent-end"), fn.Pos(), 2, "the child's end key is the parent's old end key", "SplitRegion does not tie the child's end key to the parent's: a split command that names only the split key creates an unbounded child that overlaps the parent's right neighbours (or an explicit child end beyond the parent's is accepted)")
+	}
+	if fn := c.Fn("raftstore/store", "Store.handleMergeCommand"); fn != nil {
+		// adjacency tests: bytes.Equal(EndKey, StartKey) in both orientations, each dominating the respective range store
+		adj := 0
+		for _, eq := range Calls(fn, false, Named("bytes.Equal")) {
+			a, b := fieldNameOf(eq.Common().Args[0]), fieldNameOf(eq.Common().Args[1])
+			if (a == "EndKey" && b == "StartKey") || (a == "StartKey" && b == "EndKey") {
+				adj++
+			}
+		}
+		stores := append(fieldStoresIn(fn, false, "manifest.RegionMeta", "EndKey"), fieldStoresIn(fn, false, "manifest.RegionMeta", "StartKey")...)
+		guarded := len(stores) > 0
+		for _, st := range stores {
+			ok := false
+			for _, eq := range Calls(fn, false, Named("bytes.Equal")) {
+				call, _ := eq.(*ssa.Call)
+				if call == nil {
+					continue
+				}
+				for _, b := range fn.Blocks {
+					ifi := ifOf(b)
+					if ifi == nil {
+						continue
+					}
+					if condMentions(ifi.Cond, call, 3) && EdgeDominates(b, b.Succs[0], st.Block()) {
+						ok = true
+					}
+				}
+			}
+			if !ok {
+				guarded = false
+			}
+		}
+		c.Decide(adj >= 2 && guarded, r3b, key(fn, "merge-only-adjacent"), fn.Pos(), adj+len(stores)+1, "the merged range is the union of two adjacent ranges (either side)", fmt.Sprintf("handleMergeCommand changes the target's range without establishing that the source is adjacent (%d adjacency test(s), range stores guarded: %v): merging the left neighbour leaves its keys uncovered, and an unbounded target collapses to an empty range", adj, guarded))
+	}
 	if fn := c.Fn("raftstore/store", "Store.SplitRegion"); fn != nil {
 		// split key strictly inside: two bytes.Compare guards (>= EndKey rejects, <= StartKey rejects)
 		ge, le := false, false
@@ -267,4 +357,27 @@ func transitionTable(fn *ssa.Function) map[int64][]int64 {
 		walk(b.Succs[0])
 	}
 	return out
+}
+
+// condMentions: cond is call, or a boolean combination (phi / not / and-or lowering) that includes it.
+func condMentions(cond ssa.Value, call *ssa.Call, depth int) bool {
+	if cond == ssa.Value(call) {
+		return true
+	}
+	if depth <= 0 {
+		return false
+	}
+	switch x := cond.(type) {
+	case *ssa.UnOp:
+		return condMentions(x.X, call, depth-1)
+	case *ssa.Phi:
+		for _, e := range x.Edges {
+			if condMentions(e, call, depth-1) {
+				return true
+			}
+		}
+	case *ssa.BinOp:
+		return condMentions(x.X, call, depth-1) || condMentions(x.Y, call, depth-1)
+	}
+	return false
 }
